@@ -11,7 +11,7 @@
     concrete Config / Sequence / Table components (SM/Concrete.v over builder E's store model,
     SM/SnapCodec.v over builder B's protobuf wire layer) and the C20 framing theorem. *)
 From RN Require Import SM.Replay SM.ReplayProofs RaftLog.SnapFileProofs Codec.BufReaderProofs SM.SnapshotInst
-     SM.Concrete SM.SnapCodecProofs SM.ConcreteProofs SM.ConcreteInst.
+     SM.Concrete SM.SnapCodecProofs SM.ConcreteProofs SM.ConcreteInst SM.ConcreteNs SM.ConcreteNsProofs Base.SMap SM.ConfigKey.
 
 (** Every tree name that a component's source writes is dispatched back to that component by
     the generated load_snapshot table (finite check over the Gen tables); the generated
@@ -266,3 +266,37 @@ Theorem C01_tmp_value_snapshot_refuted :
   | _ => False
   end.
 Proof. exact tmp_value_snapshot_refuted. Qed.
+
+(** NamespaceActor (concrete model SM/ConcreteNs.v, literal incl. the marker): the snapshot
+    round-trip law with its EXACT exclusions.  For a state reached by raft requests on non-empty
+    ids ([ns_inv]: "" = public/SYSTEM, every other id has exactly the USER flag — i.e. no weak
+    CONFIG/NAMING flags), before InitFromOldValue was applied and with byte-string ids/names:
+    the reloaded actor has the same namespaces (id -> name, flag) and the same already_sync
+    flag.  The list ORDER is not part of the law (build_snapshot iterates a HashMap). *)
+Theorem C01_namespace_snapshot_roundtrip :
+  forall s : nsstate,
+    ns_inv s -> ns_already s = false -> sm_get str_cmp (ns_data s) NS_MARK = None ->
+    Forall wf_ns_entry (ns_data s) ->
+    ns_data (ns_reload s) = ns_data s /\ ns_already (ns_reload s) = false.
+Proof. exact ns_snapshot_roundtrip. Qed.
+
+(** [ns_inv] is preserved by every raft request that names a non-empty id *)
+Theorem C01_namespace_invariant :
+  ns_inv ns_init /\ forall s r, ns_inv s -> ns_mok r -> ns_inv (ns_apply s r).
+Proof. exact (conj ns_init_inv ns_apply_inv). Qed.
+
+(** REFUTED without [ns_already = false] (known finding C01:namespace-already-sync-marker):
+    after InitFromOldValue the marker record comes back as an ordinary namespace *)
+Theorem C01_namespace_marker_refuted :
+  ns_inv ns_after_init /\ ns_already ns_after_init = true /\
+  sm_get str_cmp (ns_data ns_after_init) NS_MARK = None /\
+  sm_get str_cmp (ns_data (ns_reload ns_after_init)) NS_MARK = Some (mkNs [] F_USER).
+Proof. exact marker_loaded_as_namespace. Qed.
+
+(** the law's hypotheses are satisfiable (create, rename, add-only, delete) *)
+Theorem C01_namespace_law_satisfiable :
+  ns_inv ns_example /\ ns_already ns_example = false /\ sm_get str_cmp (ns_data ns_example) NS_MARK = None /\
+  Forall wf_ns_entry (ns_data ns_example) /\
+  ns_data ns_example = [([], mkNs NS_PUBLIC F_SYSTEM); (nsb "dev", mkNs (nsb "Dev 2") F_USER)] /\
+  ns_data (ns_reload ns_example) = ns_data ns_example.
+Proof. exact ns_example_in_scope. Qed.
